@@ -237,6 +237,33 @@ func init() {
 			}
 			roundTrip(c, l, "watch-shaped", " through-symlink")
 		}
+		// every printable ASCII character (but white space, quotes, backslash - outside the stated domain -
+		// and '/') in the name of an existing file / directory, in a key: as a watch and as the
+		// watch-shaped -a rule that is listed in the -w form
+		for ch := 0x21; ch <= 0x7e; ch++ {
+			if strings.ContainsRune("\"'\\/", rune(ch)) {
+				continue
+			}
+			fn, dn := dir+"/f"+string(rune(ch))+"x", dir+"/d"+string(rune(ch))+"x"
+			_ = os.WriteFile(fn, []byte("x"), 0o644)
+			_ = os.Mkdir(dn, 0o755)
+			key := "k" + string(rune(ch)) + "y"
+			if ch == ',' {
+				key = "ky" // a comma separates keys on the command line (recorded known finding for watches)
+			}
+			for _, l := range []string{
+				"-a always,exit -F path=" + fn + " -F perm=wa -F key=" + key,
+				"-a always,exit -F dir=" + dn + " -F perm=r",
+				"-w " + fn + " -p wa -k " + key,
+				"-w " + dn + " -p x",
+				"-a always,exit -S open -F exe=" + fn + " -k " + key,
+			} {
+				if !c.Mine() {
+					continue
+				}
+				roundTrip(c, l, "watch-shaped", " punctuation-in-name")
+			}
+		}
 		f, d := dir+"/f", dir+"/d"
 		parts := map[string]string{"perm": "-F perm=wa", "path": "-F path=" + f, "dir": "-F dir=" + d, "key": "-F key=wk", "pathne": "-F path!=" + f}
 		orders := [][]string{{"perm", "path"}, {"path", "perm"}, {"perm", "dir"}, {"dir", "perm"}, {"perm", "path", "key"}, {"path", "perm", "key"}, {"key", "path", "perm"}, {"perm", "key", "path"}, {"key", "perm", "path"}, {"path", "key", "perm"},
